@@ -36,7 +36,7 @@ class St:
 
 class Frame:
     __slots__ = ("func", "module", "captured", "exits", "chain", "entry_pc_len", "self_node",
-                 "cls")
+                 "cls", "loops")
 
     def __init__(self, func, module, captured, chain, entry_pc_len=0, self_node=None, cls=None):
         self.func = func
@@ -47,6 +47,7 @@ class Frame:
         self.entry_pc_len = entry_pc_len
         self.self_node = self_node
         self.cls = cls
+        self.loops: List[Dict[str, list]] = []     # enclosing loops: states captured at break / continue
 
 
 class Effect:
